@@ -7,7 +7,7 @@ Model   : Model/Compiler.lean (`serveCompiled`, `serveVersioned`, `serveWith`: c
           per-tree tables, version cache) on top of Model/Radix.lean (the tree engine)
 Oracle  : the tree engine itself (`serve`), both engines built from the same registration script
 Classes : Spec/CompiledClass.lean (`dOrder1` K11a, `normal` K11e; K11d and K11f were repaired) and the
-          tree-side classes of C01 (`dShadow1`, `dNames1`, `dCfall1`)
+          tree-side classes of C01 (`dShadow1`, `dCfall1`, and `dSameShape1`, the same-shape part of K01c)
 
 `hash` (FNV-1a in the code) is an arbitrary function; the theorems state as a hypothesis that it
 separates the keys in play.
@@ -104,7 +104,7 @@ theorem compiled_eq_tree_partial (hash : Bytes → Nat) (sat : Nat → Bytes →
     (hstd : ∀ g ∈ script, g.method ∈ stdMethods)
     (req : Req) (hp : req.path.head? = some '/') (hmeth : '/' ∉ req.method)
     (hinj : InjOn hash (hashKeys R req))
-    (hS : dShadow1 R req.method (cutAny req.path) = false) (hNm : dNames1 R req.method (cutAny req.path) = false)
+    (hS : dShadow1 R req.method (cutAny req.path) = false) (hNm : dSameShape1 R req.method (cutAny req.path) = false)
     (hC : dCfall1 sat R req.method (cutAny req.path) = false)
     (hO : dOrder1 sat R req.method (cutAny req.path) = false) :
     serveCompiled hash sat o script noRoute req = serve sat (build noRoute script) req := by
@@ -153,7 +153,7 @@ theorem C11_partial (hash : Bytes → Nat) (sat : Nat → Bytes → Bool) (o : O
     (hstd : ∀ g ∈ script, g.method ∈ stdMethods)
     (req : Req) (hp : req.path.head? = some '/') (hmeth : '/' ∉ req.method)
     (hinj : InjOn hash (hashKeys R req))
-    (hS : dShadow1 R req.method (cutAny req.path) = false) (hNm : dNames1 R req.method (cutAny req.path) = false)
+    (hS : dShadow1 R req.method (cutAny req.path) = false) (hNm : dSameShape1 R req.method (cutAny req.path) = false)
     (hC : dCfall1 sat R req.method (cutAny req.path) = false)
     (hO : dOrder1 sat R req.method (cutAny req.path) = false) :
     serveWith hash sat o script noRoute req =
@@ -183,22 +183,19 @@ theorem classify11_dash (hash : Bytes → Nat) (sat : Nat → Bytes → Bool) (o
   cases hN : normal R with
   | false => simp [hN] at hcls
   | true =>
-    cases hOw : dOverwrite1 R req.method (cutAny req.path) with
-    | true => simp [hN, hOw] at hcls
+    cases hNm : dSameShape1 R req.method (cutAny req.path) with
+    | true => simp [hN, hNm] at hcls
     | false =>
-      cases hNm : dNames1 R req.method (cutAny req.path) with
-      | true => simp [hN, hOw, hNm] at hcls
+      cases hS : dShadow1 R req.method (cutAny req.path) with
+      | true => simp [hN, hNm, hS] at hcls
       | false =>
-        cases hS : dShadow1 R req.method (cutAny req.path) with
-        | true => simp [hN, hOw, hNm, hS] at hcls
+        cases hC : dCfall1 sat R req.method (cutAny req.path) with
+        | true => simp [hN, hNm, hS, hC] at hcls
         | false =>
-          cases hC : dCfall1 sat R req.method (cutAny req.path) with
-          | true => simp [hN, hOw, hNm, hS, hC] at hcls
+          cases hO : dOrder1 sat R req.method (cutAny req.path) with
+          | true => simp [hN, hNm, hS, hC, hO] at hcls
           | false =>
-            cases hO : dOrder1 sat R req.method (cutAny req.path) with
-            | true => simp [hN, hOw, hNm, hS, hC, hO] at hcls
-            | false =>
-              exact C11_partial hash sat o noRoute script R hR hN hstd req hp hmeth hinj hS hNm hC hO
+            exact C11_partial hash sat o noRoute script R hR hN hstd req hp hmeth hinj hS hNm hC hO
 
 /-! ### witnesses of the recorded findings (replayed on the implementation: corpus/C11) and of the
 repaired ones -/
@@ -283,7 +280,7 @@ static siblings, a second method, a wildcard and the root, a 7-bit bloom filter 
 and a hash that separates the keys; the compiled dynamic stage is the one that answers -/
 example : ∃ R, specRoutes exScript = some R ∧ normal R = true ∧
     (∀ g ∈ exScript, g.method ∈ stdMethods) ∧ exReq.path.head? = some '/' ∧ '/' ∉ exReq.method ∧
-    dShadow1 R exReq.method (cutAny exReq.path) = false ∧ dNames1 R exReq.method (cutAny exReq.path) = false ∧
+    dShadow1 R exReq.method (cutAny exReq.path) = false ∧ dSameShape1 R exReq.method (cutAny exReq.path) = false ∧
     dCfall1 exSat R exReq.method (cutAny exReq.path) = false ∧ dOrder1 exSat R exReq.method (cutAny exReq.path) = false ∧
     InjOn polyHash (hashKeys R exReq) ∧
     ((rcBuild polyHash exScript).matchDynamic exSat exReq.method exReq.path).isSome = true ∧
